@@ -42,3 +42,51 @@ UNITS = [ScanUnit('c20.static_storage', static_decls, props=['C20'],
                        'the frames (assigns clauses) of all units under contract in the other checks show that no function writes outside its arguments')]
 TRUSTED_BASE = ['clang 14 AST (filter CDNS::) lists every declaration of the library; libc, iostream, zlib, liblzma are thread-compatible (assumed)']
 ASSUMPTIONS = ['schedules/thread interleavings are not examined: this technique family has no thread support']
+
+
+# ---------------------------------------------------------------- C03: no input-controlled recursion (stack use independent of nesting depth)
+def recursive_functions(ast):
+    """call graph of the library (direct calls, AST level); every function on a cycle is reported"""
+    calls = {}
+    names = {}
+    for m, d in ast.defs.items():
+        r = ast.record_of(d)
+        names[d['id']] = ((r.get('name') + '.') if r is not None and r.get('name') else '') + d.get('name', '?')
+        out = set()
+
+        def walk(n):
+            if not isinstance(n, dict):
+                return
+            ref = None
+            if n.get('kind') == 'DeclRefExpr':
+                ref = n.get('referencedDecl', {}).get('id')
+            elif n.get('kind') == 'MemberExpr':
+                ref = n.get('referencedMemberDecl')
+            if ref:
+                df = ast.decl2def.get(ref)
+                if df is not None:
+                    out.add(df['id'])
+            for c in n.get('inner', []):
+                walk(c)
+        for c in d.get('inner', []):
+            if isinstance(c, dict) and c.get('kind') in ('CompoundStmt', 'CXXTryStmt'):
+                walk(c)
+        calls[d['id']] = out
+    # functions that can reach themselves
+    res = []
+    for f in calls:
+        seen, work = set(), list(calls[f])
+        while work:
+            g = work.pop()
+            if g in seen:
+                continue
+            seen.add(g)
+            work.extend(calls.get(g, ()))
+        rec = f in seen
+        if rec or names[f].endswith('skip_item') or names[f].endswith('.read'):
+            res.append((names[f], not rec, '%s %s' % (names[f], 'calls itself (directly or indirectly): its stack use grows with the nesting depth of the input' if rec else 'is not recursive')))
+    return res
+
+
+UNITS.append(ScanUnit('c03.recursion', recursive_functions, props=['C03'],
+                      note='call graph of the library from the AST: no read-side function may be recursive (the depth of a recursion over nested CBOR items is controlled by the input)'))
